@@ -146,6 +146,31 @@ fn stack_of(sx: &Sx) -> Stack {
     Stack::verif_new(cells, sp)
 }
 
+/// the built-in procedure bound to `name` in a freshly constructed VM (the same `BuiltInProc` value the compiler would load)
+fn builtin(name: &str) -> VCell {
+    let mut vm = Vm::new();
+    let sym = vm
+        .verif_heap()
+        .verif_symbol_table()
+        .into_iter()
+        .find(|(k, _)| k == name)
+        .map(|(_, v)| v)
+        .unwrap_or_else(|| panic!("builtin {}: no such symbol", name));
+    let slot = vm
+        .verif_globenv()
+        .verif_bindings()
+        .into_iter()
+        .find(|(k, _)| *k == sym)
+        .map(|(_, v)| v)
+        .unwrap_or_else(|| panic!("builtin {}: unbound", name));
+    let v = vm.verif_globenv().verif_slots()[slot].clone();
+    let v = vm.verif_heap().get(&v);
+    match v {
+        VCell::BuiltInProc(_) => v,
+        other => panic!("builtin {}: bound to {:?}", name, other),
+    }
+}
+
 pub fn vcell(sx: &Sx) -> VCell {
     match sx.head() {
         "undef" => VCell::Undefined,
@@ -163,6 +188,7 @@ pub fn vcell(sx: &Sx) -> VCell {
         ))),
         "str" => VCell::string(unhex(sx.arg(0).atom())),
         "sym" => VCell::symbol(unhex(sx.arg(0).atom())),
+        "builtin" => builtin(&unhex(sx.arg(0).atom())),
         "pair" => VCell::Pair(sx.arg(0).usize(), sx.arg(1).usize()),
         "ptr" => VCell::Ptr(sx.arg(0).usize()),
         "closure" => VCell::Closure(sx.arg(0).usize(), sx.arg(1).usize()),
